@@ -448,6 +448,21 @@ class Session:
         self.emit({'op': 'OptAbort', 'maxIter': m, 'fixFirst': bool(fix_first), 'failAt': k, 'raised': raised, 'applied': applied[-1] if applied else -1},
                   g._vertices, g._edges, {'exception': exc, 'nan': bool(any(np.any(np.isnan(np.asarray(v.pose))) for v in g._vertices))})
 
+    def optimize_zero(self, fix_first):
+        """optimize(max_iter=0) (R7, DESIGN.md 9.3 / 9.6): today the call sets the first flag and then fails on its empty iteration list (IndexError).  In
+        terms of the specification that is GraphSLAM!OptAbort with zero complete iterations; a library that returns a report instead shows up as a
+        rejection of `abort-raised` only (a beyond-the-list note), while flags / poses / edges are held to the same frame either way."""
+        g = self.g
+        before = pose_digests(g)
+        raised, exc = False, None
+        try:
+            with contextlib.redirect_stdout(io.StringIO()):
+                g.optimize(max_iter=0, fix_first_pose=fix_first, verbose=False)
+        except Exception as ex:  # noqa
+            raised, exc = True, type(ex).__name__
+        self.emit({'op': 'OptAbort', 'maxIter': 0, 'fixFirst': bool(fix_first), 'failAt': 1, 'raised': raised, 'applied': 0 if pose_digests(g) == before else -1},
+                  g._vertices, g._edges, {'exception': exc, 'nan': False})
+
     @staticmethod
     def _str_report(ret):
         """str(OptimizationResult): one table row per complete iteration; header repeats converged / iterations."""
